@@ -461,7 +461,91 @@ def voice_assistant(ctx: Ctx) -> None:
                         gate.cancel()
 
 
+def camera_across_subscriptions(ctx: Ctx) -> None:
+    """Reassembly state belongs to ONE subscription of ONE session: chunks left incomplete when a session ends must not leak into the images of the
+    next session of the same client, and two subscribe_states() subscribers on one connection each get every complete image, unmixed."""
+    from aioesphomeapi import api_pb2 as pb
+
+    res = ctx.res
+    idx = 0
+    for ending in ("disconnect", "device-eof", "force"):
+        for n_stale in (1, 3):
+            for key_reuse in (True, False):
+                idx += 1
+                if not ctx.mine(idx):
+                    continue
+                with Sim() as sim:
+                    dev = sim.device(DeviceConfig())
+                    cli = sim.client(keepalive=1e5)
+                    got: list[list[Any]] = [[], []]
+                    for sess in (0, 1):
+                        c = sim.call("connect", lambda: cli.connect(login=False))
+                        sim.run(until=lambda: c.done, max_time=sim.clock + 50)
+                        if c.outcome != "ok":
+                            res.inconclusive.append(f"camera multi-session connect failed {c.exc!r}")
+                            break
+                        cli.subscribe_states(lambda st, sess=sess: got[sess].append(st))
+                        sim.run_for(0.001)
+                        dconn = dev.conn
+                        if sess == 0:
+                            msgs = [pb.CameraImageResponse(key=5, data=b"A1", done=False), pb.CameraImageResponse(key=5, data=b"A2", done=True)]
+                            msgs += [pb.CameraImageResponse(key=5, data=b"OLD%d-" % j, done=False) for j in range(n_stale)]   # never completed
+                            msgs += [pb.CameraImageResponse(key=6, data=b"other-", done=False)]
+                            send_stream(sim, dconn, msgs, [len(msgs)])
+                            if ending == "disconnect":
+                                d = sim.call("disconnect", lambda: cli.disconnect())
+                                sim.run(until=lambda: d.done, max_time=sim.clock + 20)
+                            elif ending == "force":
+                                d = sim.call("force", lambda: cli.disconnect(force=True))
+                                sim.run(until=lambda: d.done, max_time=sim.clock + 20)
+                            else:
+                                dconn.eof(0.0)
+                                sim.run_for(0.01)
+                            sim.run_for(0.1)
+                        else:
+                            k = 5 if key_reuse else 7
+                            msgs = [pb.CameraImageResponse(key=k, data=b"new1", done=False), pb.CameraImageResponse(key=k, data=b"new2", done=True),
+                                    pb.CameraImageResponse(key=6, data=b"six", done=True)]
+                            send_stream(sim, dconn, msgs, [1, 1, 1])
+                            sim.run_for(0.01)
+                    res.evaluations += 1
+                    res.count("workload/camera-across-sessions")
+                    res.sig("camera-sessions", ending, n_stale, key_reuse)
+                    case = {"kind": "camera-across-sessions", "ending": ending, "stale_chunks": n_stale, "same_key": key_reuse}
+                    first = [(type(x).__name__, x.key, bytes(x.data)) for x in got[0]]
+                    second = [(type(x).__name__, x.key, bytes(x.data)) for x in got[1]]
+                    if first != [("CameraState", 5, b"A1A2")]:
+                        res.violation("C17/camera/image-mismatch", f"session 1 subscriber got {first}", case)
+                    exp2 = [("CameraState", 5 if key_reuse else 7, b"new1new2"), ("CameraState", 6, b"six")]
+                    if second != exp2:
+                        res.violation("C17/camera/stale-chunks-from-earlier-session", f"session 2 subscriber got {second}, expected {exp2} (session 1 left {n_stale} incomplete chunks for key 5 "
+                                      "and one for key 6)", case, trace=sim.trace(40))
+    # two subscribers on one connection
+    idx += 1
+    if ctx.mine(idx):
+        with Sim() as sim:
+            cli, dconn = session(sim)
+            a: list[Any] = []
+            b: list[Any] = []
+            cli.subscribe_states(a.append)
+            sim.run_for(0.001)
+            send_stream(sim, dconn, [pb.CameraImageResponse(key=1, data=b"a1", done=False)], [1])
+            cli.subscribe_states(b.append)       # joins in the middle of an image
+            sim.run_for(0.001)
+            send_stream(sim, dconn, [pb.CameraImageResponse(key=1, data=b"a2", done=True), pb.CameraImageResponse(key=1, data=b"b1", done=False),
+                                     pb.CameraImageResponse(key=1, data=b"b2", done=True)], [1, 2])
+            res.evaluations += 1
+            res.count("workload/camera-two-subscribers")
+            res.sig("camera-two-subscribers")
+            ga = [bytes(x.data) for x in a]
+            gb = [bytes(x.data) for x in b]
+            if ga != [b"a1a2", b"b1b2"] or gb != [b"a2", b"b1b2"]:
+                res.violation("C17/camera/subscribers-share-buffer", f"first subscriber got {ga} (expected [a1a2, b1b2]), second (joined after chunk a1) got {gb} (expected [a2, b1b2])",
+                              {"kind": "camera-two-subscribers"}, trace=sim.trace(40))
+
+
 def shard(ctx: Ctx) -> None:
+    camera_across_subscriptions(ctx)
     state_streams(ctx)
     camera_interleavings(ctx)
     voice_assistant(ctx)
